@@ -29,6 +29,8 @@ def plan_for(entry, k, thorough, ver="v2c"):
     out += [("getbulk", m, c, False) for m, c in combos]
     if thorough or k % 4 == 0 or ver == "v1":
         out.append(("getbulk", 20, 3, True))          # fetch(): default max_repetitions 20 (GetNext on v1)
+    if thorough or k % 5 == 1:
+        out.append(("getbulk", [127, 128, 200, 255, 256, 65535][k % 6], 3, False))     # repetition counts around the INTEGER length steps
     return out
 
 
